@@ -1,4 +1,196 @@
 import BoltonsVerif.C16.Proofs
+/-
+C16 — property theorems (statements, short derivations from Proofs.lean, non-vacuity examples).
+
+Clause 1.  "For every traceback text in the interpreter's standard format — any number of frames,
+frames with or without a source line, any exception type name, empty / one-line / multi-line
+message — ParsedException.from_string recovers each frame's file, line number, function and source
+line and the exception type and message, and to_string() reproduces the text exactly."
+
+  A text in the standard format is `toStringA fas etype msg`: the header, per frame the frame line,
+  the source line when there is one and (3.11+) an optional position-marker line, then the exception
+  line(s).  `WFtextA` / `WFpe` are the explicit decidable side conditions (see Model.lean):
+  no str.splitlines separator inside a field (only `\n`, inside the message), the message does not
+  end in `\n`, its last line is not of the form `Exception ... ignored`, source lines are stripped
+  and do not themselves look like frame lines, function names contain no `", line N, in x`,
+  the type name is a non-empty run of non-space characters that is not made of `~`/`^` only.
+  Outside these conditions the FULL statement is false for the code as it is (three witnesses below,
+  recorded as known findings and replayed on the real code on every run).
+
+Clause 2.  "TracebackInfo/ExceptionInfo ... list the same frames in the same order with the same
+file, line, function and source text as the standard traceback module, and their formatted output
+equals the interpreter's (position-marker lines aside)."
+
+  The frame walk itself (interpreter objects) is tied by the correspondence on live exceptions; the
+  theorems here are about the formatting algorithms, for every list of entries.  FULL statement
+  `eiFormat frames t m ++ "\n" = stdFormat frames t m` is false for runs of more than 3 identical
+  entries (`format_eq_std_false`); `format_eq_std_partial` assumes `NoLongRun`.
+-/
 namespace C16
-theorem placeholder_nat : (1 : Nat) = 1 := rfl
+
+/-! ## the source's regexes are the ones the scanners implement (regenerated on every run) -/
+
+theorem source_regexes_agree :
+    Gen.frameReShape = ["^".toList, "lit:".toList ++ litA, "any+".toList, "lit:".toList ++ litB,
+                        "digit+".toList, "lit:".toList ++ litC, "any+".toList, "$".toList] ∧
+    Gen.seFrameReShape = ["^".toList, "lit:".toList ++ litA, "any+".toList, "lit:".toList ++ litB,
+                          "digit+".toList] ∧
+    Gen.underlineReShape = ["^".toList, "set*: ^~".toList, "$".toList] := by decide
+
+/-! ## clause 1 -/
+
+/-- from_string recovers every field from a standard-format text, marker lines or not -/
+theorem parse_render_markers (fas : List (Frame × Option Str)) (etype msg : Str)
+    (h : WFtextA fas etype msg = true) :
+    fromString (toStringA fas etype msg) = .ok ⟨fas.map (·.1), etype, msg⟩ := by
+  unfold fromString; rw [fromStringF_rendered fas etype msg h]; rfl
+
+/-- ... also when the text carries the interpreter's final newline -/
+theorem parse_render_final_newline (fas : List (Frame × Option Str)) (etype msg : Str)
+    (h : WFtextA fas etype msg = true) :
+    fromString (toStringA fas etype msg ++ ['\n']) = .ok ⟨fas.map (·.1), etype, msg⟩ := by
+  unfold fromString; rw [fromStringF_rendered_nl fas etype msg h]; rfl
+
+theorem toString_eq_toStringA (pe : PE) : toString pe = toStringA (noAnchors pe) pe.etype pe.msg := by
+  unfold toString toStringA toLines toLinesA noAnchors
+  congr 3
+  induction pe.frames with
+  | nil => rfl
+  | cons f fs ih =>
+    have : frameLines f = frameLinesA (f, none) := by
+      unfold frameLines frameLinesA
+      split <;> simp_all
+    simp only [List.map_cons, List.flatMap_cons, ih, this]
+
+theorem WFtextA_noAnchors (pe : PE) (h : WFpe pe = true) : WFtextA (noAnchors pe) pe.etype pe.msg = true := by
+  simp only [WFpe, Bool.and_eq_true, List.all_eq_true] at h
+  simp only [WFtextA, noAnchors, Bool.and_eq_true, List.all_eq_true, List.mem_map]
+  refine ⟨?_, h.2⟩
+  rintro fa ⟨f, hf, rfl⟩
+  simp [h.1 f hf, WFanchor]
+
+/-- parse ∘ render = id on well-formed parsed exceptions -/
+theorem parse_render (pe : PE) (h : WFpe pe = true) : fromString (toString pe) = .ok pe := by
+  rw [toString_eq_toStringA, parse_render_markers _ _ _ (WFtextA_noAnchors pe h)]
+  cases pe
+  simp [noAnchors, Function.comp_def]
+
+/-- render ∘ parse reproduces a standard-format text exactly (no marker lines in it) -/
+theorem render_parse (pe : PE) (h : WFpe pe = true) :
+    (fromString (toString pe)).map toString = .ok (toString pe) := by
+  rw [parse_render pe h]; rfl
+
+/-- with marker lines, to_string reproduces the text without them (to_string never prints markers) -/
+theorem render_parse_markers (fas : List (Frame × Option Str)) (etype msg : Str)
+    (h : WFtextA fas etype msg = true) :
+    (fromString (toStringA fas etype msg)).map toString
+      = .ok (toStringA (fas.map fun fa => (fa.1, none)) etype msg) := by
+  rw [parse_render_markers fas etype msg h]
+  simp only [Except.map, toString_eq_toStringA, noAnchors, List.map_map]
+  rfl
+
+/-! non-vacuity: a two-frame text with a non-ASCII path, a marker line, a last frame without source
+    line and a multi-line message containing `": "` and a frame-like line satisfies the hypotheses -/
+
+def exFrames : List (Frame × Option Str) :=
+  [(⟨"/x y/é.py".toList, "12".toList, "<module>".toList, "foo(1, \"a: b\")".toList⟩, some "    ~~~^^^".toList),
+   (⟨"<stdin>".toList, "3".toList, "<lambda>".toList, []⟩, none)]
+def exMsg : Str := "a: b\n  File \"q\", line 3, in z\n\nlast".toList
+
+example : WFtextA exFrames "pkg.mod.Err".toList exMsg = true := by decide +kernel
+example : WFpe ⟨exFrames.map (·.1), "ValueError".toList, []⟩ = true := by decide +kernel
+example : WFpe ⟨[], "f.<locals>.E".toList, "x".toList⟩ = true := by decide +kernel
+
+/-! the three regions the hypotheses exclude are real defects of the code as it is (known findings) -/
+
+theorem fromStringF_noframes {t e1 : Str} {E : List Str}
+    (h1 : dropTrailers (splitlines (lstrip t)) = header :: e1 :: E) (h2 : matchFrame (strip e1) = none) :
+    fromString t = .ok ⟨[], (excParts (e1 :: E)).1, (excParts (e1 :: E)).2⟩ := by
+  unfold fromString fromStringF fromLinesF
+  have hh : strip header = header := strip_of_first_last (by rfl) (by rfl)
+  simp only [h1, hh, ↓reduceIte, parseLoop_cons_none h2]
+  rfl
+
+/-- a message ending in a newline is not recovered -/
+theorem parse_render_false_trailing_newline :
+    ∃ pe : PE, fromString (toString pe) ≠ .ok pe := by
+  refine ⟨⟨[], "E".toList, "a\n".toList⟩, ?_⟩
+  rw [fromStringF_noframes (e1 := "E: a".toList) (E := []) (by decide +kernel) (by decide +kernel)]
+  intro h; have := Except.ok.inj h; revert this; decide +kernel
+
+/-- a message containing another str.splitlines separator is not recovered -/
+theorem parse_render_false_separator :
+    ∃ pe : PE, pe.msg.getLast? ≠ some '\n' ∧ fromString (toString pe) ≠ .ok pe := by
+  refine ⟨⟨[], "E".toList, "a\x0cb".toList⟩, by decide +kernel, ?_⟩
+  rw [fromStringF_noframes (e1 := "E: a".toList) (E := ["b".toList]) (by decide +kernel) (by decide +kernel)]
+  intro h; have := Except.ok.inj h; revert this; decide +kernel
+
+/-- a message whose last line reads `Exception ... ignored` loses that line -/
+theorem parse_render_false_trailer :
+    ∃ pe : PE, fromString (toString pe) ≠ .ok pe := by
+  refine ⟨⟨[], "E".toList, "x\nException in thread ignored".toList⟩, ?_⟩
+  rw [fromStringF_noframes (e1 := "E: x".toList) (E := []) (by decide +kernel) (by decide +kernel)]
+  intro h; have := Except.ok.inj h; revert this; decide +kernel
+
+/-! ## clause 2 -/
+
+/-- TracebackInfo.from_traceback(tb, limit) lists the entries extract_tb(tb, limit) lists, in order -/
+theorem frames_eq_extract_tb (tb : List Callpoint) (limit : Option Nat) :
+    fromTraceback tb limit = stdExtract tb limit := rfl
+
+/-- Callpoint.tb_frame_str prints one entry exactly as the traceback module does (same file, line,
+    function, same stripped source text, present under the same condition) -/
+theorem tb_frame_str_eq_std (c : Callpoint) : tbFrameStr c = stdFrameStr c := tbFrameStr_eq_std c
+
+/-- TracebackInfo.get_formatted, for every list of entries, is the header followed by the
+    interpreter's rendering of each entry -/
+theorem tbinfo_format_eq (tb : List Callpoint) (limit : Option Nat) :
+    tbInfoFormat (fromTraceback tb limit) = headerNL ++ (stdExtract tb limit).flatMap stdFrameStr := by
+  unfold tbInfoFormat
+  rw [frames_eq_extract_tb]
+  congr 1
+  induction stdExtract tb limit with
+  | nil => rfl
+  | cons c cs ih => simp [List.flatMap_cons, tbFrameStr_eq_std, ih]
+
+theorem flatMap_tbFrameStr (frames : List Callpoint) : frames.flatMap tbFrameStr = frames.flatMap stdFrameStr := by
+  induction frames with
+  | nil => rfl
+  | cons c cs ih => simp [List.flatMap_cons, tbFrameStr_eq_std, ih]
+
+/- FULL: ∀ frames etype msg, eiFormat frames etype msg ++ ['\n'] = stdFormat frames etype msg
+   (false: format_eq_std_false).  Proved under the explicit decidable hypothesis `NoLongRun`. -/
+/-- ExceptionInfo.get_formatted equals the interpreter's text (its final newline aside) whenever no
+    more than 3 consecutive entries share file, line and function -/
+theorem format_eq_std_partial (frames : List Callpoint) (etype msg : Str) (h : NoLongRun frames = true) :
+    eiFormat frames etype msg ++ ['\n'] = stdFormat frames etype msg := by
+  unfold eiFormat stdFormat tbInfoFormat
+  rw [stdLoop_noLongRun none 0 frames (by omega) h, flatMap_tbFrameStr]
+  unfold eiExcOnly stdExcOnly
+  split <;> simp [List.append_assoc]
+
+/-- tbutils.print_exception writes exactly the interpreter's text under the same hypothesis -/
+theorem print_exception_eq_std_partial (frames : List Callpoint) (etype msg : Str) (h : NoLongRun frames = true) :
+    printException frames etype msg = stdFormat frames etype msg := by
+  unfold printException stdFormat tbInfoFormat
+  rw [stdLoop_noLongRun none 0 frames (by omega) h, flatMap_tbFrameStr]
+  unfold stdExcOnly
+  split <;> simp [List.append_assoc]
+
+/-- get_formatted_exception_only equals format_exception_only (final newline aside), all messages -/
+theorem exc_only_eq_std (etype msg : Str) : eiExcOnly etype msg ++ ['\n'] = stdExcOnly etype msg := by
+  unfold eiExcOnly stdExcOnly
+  split <;> simp
+
+def exCp (n : Nat) (f : String) (l : String) : Callpoint := ⟨"/a b/é.py".toList, n, f.toList, l.toList⟩
+
+example : NoLongRun [exCp 1 "<module>" "f()\n", exCp 5 "f" "    return g()  \n", exCp 5 "f" "    return g()  \n",
+                     exCp 5 "f" "    return g()  \n", exCp 9 "<lambda>" ""] = true := by decide +kernel
+
+/-- the full statement is false: the interpreter collapses the 4th identical entry -/
+theorem format_eq_std_false :
+    ∃ frames etype msg, eiFormat frames etype msg ++ ['\n'] ≠ stdFormat frames etype msg := by
+  refine ⟨List.replicate 4 (exCp 2 "f" "f()\n"), "E".toList, [], ?_⟩
+  decide +kernel
+
 end C16
